@@ -147,6 +147,34 @@ def run(prog, rep, tier):
             if cb['kind'] == 'closure' and cb['name'].startswith(b_['name'] + '::{closure') and cb['id'] not in seen_b:
                 work.append(cb)
     rep.floor('regex calls below Position::from_str', nreg, 1)
+    # U5: provenance of the two coordinates.  Every Position built in from_str takes its latitude from the airport's
+    # `lat` or from the text before the comma (index 0 of the split), its longitude from `lon` or from index 1.
+    import dataflow
+
+    def src(pl):
+        st_ = dataflow.place_steps(prog, pos_fs, pl)
+        if st_ and (st_[-1][0] or '').endswith('Airport') and st_[-1][2] in ('lat', 'lon'):
+            return {st_[-1][2]}
+        return None
+
+    def cres(c_, ats, args):
+        if c_.get('item') == 'index' and len(args) > 1 and args[1]['k'] == 'const' and 'int' in (args[1].get('v') or {}):
+            return {('part', int(args[1]['v']['int']))}
+        return None
+    tt = dataflow.Taint(prog, pos_fs, src, call_result=cres)
+    nagg = 0
+    for bb in pos_fs['blocks']:
+        for s_ in bb['s']:
+            if s_['k'] == 'assign' and s_['rv']['k'] == 'agg' and s_['rv']['ak']['k'] == 'adt' and prog.types[s_['rv']['ak']['ty']]['name'].endswith('cpr::Position'):
+                ty_ = prog.types[s_['rv']['ak']['ty']]
+                names = [f['name'] for f in ty_['variants'][0]['fields']]
+                nagg += 1
+                for fname, want in (('latitude', {'lat', ('part', 0)}), ('longitude', {'lon', ('part', 1)})):
+                    got = set(x for x in tt.operand_taint(s_['rv']['ops'][names.index(fname)]) if x in ('lat', 'lon') or (isinstance(x, tuple) and x[0] == 'part'))
+                    rep.check(bool(got) and got <= want, 'U5-coordinate-provenance', 'Position::from_str#%s#%d' % (fname, nagg), '%s:%s' % (pos_fs['file'], s_.get('sp')),
+                              '%s of the parsed reference is taken from %s (expected %s)' % (fname, sorted(map(str, got)) or 'nothing recognisable', sorted(map(str, want))),
+                              sample={'field': fname, 'from': sorted(map(str, got))})
+    rep.floor('Position values built in from_str', nagg, 2)
     rep.ok('U4-default-matching-mode', 'Position::from_str#regex-calls-examined', True, {'regex_calls': nreg, 'bodies': len(seen_b)})
     consts += E2.const_checks
     for kind, lit, good, site in sorted(set(c_[:4] for c_ in consts if c_[0] in ('regex', 'url'))):
